@@ -126,34 +126,46 @@ class Url:
             bytes,
             Optional[int],
     ]:
-        split_at = raw.split(AT, 1)
         username, password = None, None
-        if len(split_at) == 2:
-            username, password = split_at[0].split(COLON)
-        parts = split_at[-1].split(COLON, 2)
-        num_parts = len(parts)
+        # userinfo ends at the LAST '@', a password may itself contain ':'
+        userinfo, at, hostport = raw.rpartition(AT)
+        if at:
+            username, colon, rest = userinfo.partition(COLON)
+            password = rest if colon else None
         port: Optional[int] = None
-        # No port found
-        if num_parts == 1:
-            return username, password, parts[0], None
-        # Host and port found
-        if num_parts == 2:
-            return username, password, COLON.join(parts[:-1]), int(parts[-1])
-        # More than a single COLON i.e. IPv6 scenario
-        try:
-            # Try to resolve last part as an int port
-            last_token = parts[-1].split(COLON)
-            port = int(last_token[-1])
-            host = COLON.join(parts[:-1]) + COLON + \
-                COLON.join(last_token[:-1])
-        except ValueError:
-            # If unable to convert last part into port,
-            # treat entire data as host
-            host, port = raw, None
-        # patch up invalid ipv6 scenario
-        rhost = host.decode('utf-8')
-        if COLON.decode('utf-8') in rhost and \
-                rhost[0] != '[' and \
-                rhost[-1] != ']':
+        if hostport.startswith(b'['):
+            # IP-literal: '[' address ']' [ ':' port ]
+            end = hostport.find(b']')
+            if end == -1:
+                raise HttpProtocolException('Invalid IP literal %r' % raw)
+            host, rest = hostport[:end + 1], hostport[end + 1:]
+            if rest:
+                if not rest.startswith(COLON):
+                    raise HttpProtocolException('Invalid authority %r' % raw)
+                port = Url._parse_port(rest[1:], raw)
+        elif hostport.count(COLON) > 1:
+            # More than a single COLON without brackets i.e. malformed IPv6
+            # scenario, patch it up.  Last token is the port when numeric.
+            host, _, last_token = hostport.rpartition(COLON)
+            try:
+                port = int(last_token)
+            except ValueError:
+                host, port = hostport, None
             host = b'[' + host + b']'
+        else:
+            host, colon, rest = hostport.partition(COLON)
+            if colon:
+                port = Url._parse_port(rest, raw)
+        if host in (b'', b'[]'):
+            raise HttpProtocolException('No host in %r' % raw)
         return username, password, host, port
+
+    @staticmethod
+    def _parse_port(raw: bytes, url: bytes) -> Optional[int]:
+        if raw == b'':
+            return None
+        # int() raises ValueError for a non numeric port
+        port = int(raw)
+        if not raw.isdigit() or port > 65535:
+            raise ValueError('Invalid port in %r' % url)
+        return port
